@@ -274,6 +274,26 @@ pub fn int_values(t: usize, level: Level, extra: &[i128]) -> Vec<i128> {
         add(-5 * pow10(k - 1));
         k += if level == Level::Quick { 3 } else { 1 };
     }
+    // the values at which SCALING the integer itself by 10^k leaves the i128 range (alignment thresholds
+    // of the integer operand), and the bit-width boundaries at which 64-bit / 68-bit fast paths would switch
+    let m = i128::MAX;
+    let mut k = 1;
+    while k <= 18 {
+        let th = m / pow10(k);
+        let ds: &[i128] = if level == Level::Quick { &[0, 1] } else { &[-1, 0, 1, 2] };
+        for &d in ds {
+            add(th + d);
+            add(-(th + d));
+        }
+        k += 1;
+    }
+    let bits: &[u32] = if level == Level::Quick { &[63, 64, 68, 126] } else { &[31, 32, 62, 63, 64, 65, 67, 68, 96, 100, 126] };
+    for &b in bits {
+        for d in [-1i128, 0, 1] {
+            add((1i128 << b) + d);
+            add(-((1i128 << b) + d));
+        }
+    }
     for &v in extra {
         add(v);
     }
